@@ -62,7 +62,10 @@ pub fn judge(input: &[u8], with_display: bool) -> (&'static str, Vec<(Which, &'s
     let s = catch(|| RtMessage::from_bytes(input));
     let s = match s {
         Err(p) => {
-            out.push((Which::C06, "decode-panic", p));
+            // neither an accept nor a reject: violates C06 (never panics) and C05 (decides accept/reject
+            // exactly as the reference does)
+            out.push((Which::C06, "decode-panic", p.clone()));
+            out.push((Which::C05, "decode-panic", p));
             return ("panic", out);
         }
         Ok(s) => s,
